@@ -210,7 +210,7 @@ def _mutated_names(stmts):
                 base = n.func.value
                 while isinstance(base, (ast.Attribute, ast.Subscript)): base = base.value
                 if isinstance(base, ast.Name): out.add(base.id)
-            if isinstance(n, (ast.Subscript, ast.Attribute)) and isinstance(n.ctx, ast.Store):
+            if isinstance(n, (ast.Subscript, ast.Attribute)) and isinstance(n.ctx, (ast.Store, ast.Del)):
                 base = n.value
                 while isinstance(base, (ast.Attribute, ast.Subscript)): base = base.value
                 if isinstance(base, ast.Name): out.add(base.id)
@@ -863,6 +863,18 @@ class Executor:
                     res += r; ok = False
             if ok: res.append(('fall', q, None))
         return res
+
+    def st_Delete(self, st, p):
+        h = getattr(self.c, 'delete_handler', None)
+        if h is None: raise Unsupported(f'{self.qualname}:{st.lineno} del')
+        outs = [('fall', p, None)]
+        for tgt in st.targets:
+            nxt = []
+            for kind, q, v in outs:
+                if kind != 'fall': nxt.append((kind, q, v)); continue
+                nxt += h(self, tgt, q)
+            outs = nxt
+        return outs
 
     def st_AnnAssign(self, st, p):
         if st.value is None: return [('fall', p, None)]
